@@ -99,6 +99,11 @@ partial def loop (h out : IO.FS.Stream) (w : World) : IO Unit := do
     match (readSx (l.drop 6).toString).bind sxWorld with
     | some w' => out.putStrLn "ok"; loop h out w'
     | none => out.putStrLn "parse-error"; loop h out w
+  else if l.startsWith "redef " then
+    -- the instrument is described again under the same name: later plays see the new description
+    match (readSx (l.drop 6).toString).bind sxDesc with
+    | some d => out.putStrLn "ok"; loop h out { w with lib := d :: w.lib.filter (fun x => x.name != d.name) }
+    | none => out.putStrLn "parse-error"; loop h out w
   else if l.startsWith "event " then
     let (t, rest) := splitHead (l.drop 6).toString
     match parseRat t, (readSx rest).bind sxEv with
